@@ -300,6 +300,78 @@ fn weak_case(kind: u8) -> Result<(), String> {
     })
 }
 
+/// The value is reachable only through a weak pointer when the arena reaches `phase`; it is then
+/// upgraded, converted, stashed, and from then on kept alive by the DynamicRoot handle alone.
+fn handle_case(phase: u8, steps: Vec<u8>) -> Result<(), String> {
+    in_window(|| {
+        let mut arena = new_arena();
+        let addr = arena.mutate_root(|mc, root| {
+            let g = talloc::subject(|| Gc::new(mc, T0::new()));
+            root.weak.push(GcWeak::erase(Gc::downgrade(g)));
+            // typed weak pointer kept in a Gc so that it can be recovered
+            root.keep.push(Gc::erase(Gc::new(mc, gc_arena::Lock::new(Some(Gc::downgrade(g))))));
+            Gc::as_ptr(g) as usize
+        });
+        talloc::register_gc(addr, 1);
+        match phase {
+            0 => {}
+            1 => {
+                let m = arena.metrics();
+                m.adjust_debt(1.0e6);
+                let d = m.allocation_debt();
+                m.adjust_debt(0.01 - d);
+                let _ = arena.mark_debt();
+            }
+            2 => {
+                let _ = arena.finish_marking();
+            }
+            _ => {
+                if let Some(m) = arena.finish_marking() {
+                    m.start_sweeping();
+                }
+            }
+        }
+        let handle = arena.mutate(|mc, root| -> Result<Option<gc_arena::DynamicRoot<Rootable![T0]>>, String> {
+            let holder: Gc<gc_arena::Lock<Option<GcWeak<T0>>>> = unsafe { Gc::cast(root.keep[0]) };
+            let Some(mut g) = holder.get().unwrap().upgrade(mc) else { return Ok(None) };
+            for s in &steps {
+                g = sized_step(mc, root.set, *s, g)?;
+            }
+            Ok(Some(root.set.stash::<Rootable![T0]>(mc, g)))
+        })?;
+        let Some(handle) = handle else {
+            // upgrade refused (Sweeping): nothing to check
+            drop(arena);
+            return Ok(());
+        };
+        for round in 0..2 {
+            arena.finish_cycle();
+            if dlog_len() != 0 {
+                return Err(format!("value destructed in full cycle {round} although a DynamicRoot handle for it is alive"));
+            }
+        }
+        let ok = arena.mutate(|_, root| {
+            let f = root.set.fetch(&handle);
+            Gc::as_ptr(f) as usize == addr
+        });
+        if !ok {
+            return Err("fetch does not return the stashed object".into());
+        }
+        drop(handle);
+        arena.finish_cycle();
+        arena.finish_cycle();
+        if dlog_count(8, 8) != 1 {
+            return Err(format!("after the last handle was dropped the value was destructed {} times", dlog_count(8, 8)));
+        }
+        drop(arena);
+        let e = talloc::take_errors();
+        if !e.is_empty() {
+            return Err(e.join("; "));
+        }
+        Ok(())
+    })
+}
+
 struct NotZst(#[allow(dead_code)] u8);
 unsafe impl<'gc> Collect<'gc> for NotZst {
     const NEEDS_TRACE: bool = false;
@@ -412,6 +484,21 @@ pub fn cases(thorough: bool) -> Vec<Case> {
     for k in 0..3u8 {
         v.push((format!("weak/{k}"), Box::new(move || weak_case(k))));
     }
+    for phase in 0..4u8 {
+        let mut hc: Vec<Vec<u8>> = vec![vec![]];
+        for a in 0..SIZED_STEPS {
+            hc.push(vec![a]);
+            if thorough {
+                for b in 0..SIZED_STEPS {
+                    hc.push(vec![a, b]);
+                }
+            }
+        }
+        for c in hc {
+            let c2 = c.clone();
+            v.push((format!("handle/phase{}/{:?}", phase, c), Box::new(move || handle_case(phase, c2.clone()))));
+        }
+    }
     macro_rules! zst {
         ($ca:literal, $($z:ty),*) => {$(
             for e in 0..3u8 { v.push((format!("zst/cache{}/{}/entry{}", $ca, stringify!($z), e), Box::new(move || zst_case::<$ca, $z>(e)))); }
@@ -429,7 +516,7 @@ pub fn run(thorough: bool, only: Option<&str>) -> GridOut {
     GridOut {
         evaluations: n,
         nontrivial,
-        rule: "all chains (length <= 2 quick / 3 thorough) of identity-typed conversions {erase_kind, downgrade+upgrade, as_thin+as_fat, as_ptr+from_ptr, as_thin_ptr+from_thin_ptr_with_kind, stash+fetch} on a sized value x terminal conversions {erase, unsize to dyn Trait, cast to repr(transparent) twin, weak erase, unsize to dyn Debug}; all chains of length <= 3 over the applicable conversions for built slice, str, header+slice, array unsized to slice, RefLock<T> unsized to RefLock<dyn Trait>; converted weak pointers; ZstCache<1|8|64> x zero-sized types of alignment 1..128 and non-zero-sized types x alloc/alloc_static/alloc_zst. Non-trivial = at least one conversion step".into(),
+        rule: "all chains (length <= 2 quick / 3 thorough) of identity-typed conversions {erase_kind, downgrade+upgrade, as_thin+as_fat, as_ptr+from_ptr, as_thin_ptr+from_thin_ptr_with_kind, stash+fetch} on a sized value x terminal conversions {erase, unsize to dyn Trait, cast to repr(transparent) twin, weak erase, unsize to dyn Debug}; all chains of length <= 3 over the applicable conversions for built slice, str, header+slice, array unsized to slice, RefLock<T> unsized to RefLock<dyn Trait>; converted weak pointers; upgrade + conversions + stash in every phase with the value kept alive by the handle alone; ZstCache<1|8|64> x zero-sized types of alignment 1..128 and non-zero-sized types x alloc/alloc_static/alloc_zst. Non-trivial = at least one conversion step".into(),
         samples: names.iter().step_by((names.len() / 6).max(1)).take(6).map(|s| J::Str(s.clone())).collect(),
         violations: viol.iter().map(|(c, e)| J::obj().with("case", c.as_str()).with("message", e.as_str())).collect(),
         extra: J::obj().with("exhaustive", only.is_none()),
